@@ -767,7 +767,7 @@ Proof.
           exists (mkSketch lg_max (MSet st T8)). split; [destruct t; reflexivity|].
           split; [apply SimSet; assumption|discriminate]. }
       destruct Hnew as (g' & Hg' & HGA & Htag). rewrite Hg'. cbn [obind]. eexists. split; [reflexivity|].
-      rewrite app_nil_r. split; [reflexivity|]. split; [assumption|]. split; [lia|]. split; [lia|]. split; [assumption|].
+      rewrite app_nil_r. split; [exact Hm|]. split; [assumption|]. split; [lia|]. split; [lia|]. split; [assumption|].
       exists scs. cbn [un_gadget]. split; [assumption|]. split; [apply req_refl|].
       split; [apply (sim_weaken AC TT); [intros; exact I|assumption]|].
       split; [intros _ c; tauto|]. split; [intros _; assumption|]. split; [|discriminate].
@@ -778,4 +778,111 @@ Proof.
       rewrite Hu. cbn [obind]. rewrite Hm. eexists. split; [reflexivity|].
       apply (ginv_set lg_max harr lg (it ++ cs)); [now apply HGI'| |assumption].
       intros c. rewrite !in_app_iff, (Hits c). tauto.
+Qed.
+
+(* HllUnion::update_value (the item's coupon c) *)
+Lemma union_value_step : forall lg_max harr lg cs u c, GInv lg_max harr lg cs u -> valid c ->
+  exists u', union_update_value u c = Ok u' /\ GInv lg_max harr lg (c :: cs) u'.
+Proof.
+  intros lg_max harr lg cs u c HGI Hc. unfold union_update_value, hll_update.
+  destruct (gadget_feed lg_max harr lg cs u [c] HGI (Forall_cons _ Hc (Forall_nil _))) as (g' & Hu & HGI' & _).
+  cbn [update_all] in Hu. destruct (update_with_coupon hip_new hip_update hip_carry (un_gadget u) c) as [g1| |]; cbn [obind] in Hu; try discriminate.
+  inversion Hu; subst g1. cbn [obind]. destruct HGI as (Hm & _). rewrite Hm. eexists. split; [reflexivity|].
+  apply (HGI' ltac:(discriminate)).
+Qed.
+
+Lemma union_reset_step : forall lg_max harr lg cs u, GInv lg_max harr lg cs u ->
+  exists u', union_reset u = Ok u' /\ GInv lg_max false lg_max [] u'.
+Proof. intros lg_max harr lg cs u (Hm & Hlm & _). unfold union_reset. rewrite Hm. now apply ginv_new. Qed.
+
+(* ---------- what the union shows ---------- *)
+Definition union_shows (lg_max : N) (harr : bool) (lg : N) (cs : list N) (g : hsketch) : Prop :=
+  sk_lgk g = lg /\ sk_tgt g = T8 /\
+  (sk_tag g = TagArray <-> (harr = true \/ spec_mode lg_max (distinct cs) = TagArray)) /\
+  (sk_tag g = TagArray -> forall j, j < 2 ^ lg -> sk_reg g j = Ok (spec_regs lg cs j)) /\
+  (sk_tag g <> TagArray ->
+     lg = lg_max /\ sk_tag g = spec_mode lg_max (distinct cs) /\ NoDup (sk_coupons g) /\
+     (forall c, In c (sk_coupons g) <-> In c cs) /\ sk_len g = distinct cs).
+
+Lemma ginv_shows : forall lg_max harr lg cs u, GInv lg_max harr lg cs u -> union_shows lg_max harr lg cs (un_gadget u).
+Proof.
+  intros lg_max harr lg cs u (Hm & Hlm & Hl4 & Hle & Hcv & seen & Hsv & Hreq & HG & Hsp & Hne & Hna & Hha).
+  destruct harr.
+  - specialize (Hha eq_refl).
+    destruct (gsim_cases TT lg seen _ HG) as [(l & ds & Eg & _)|[(st & Eg & _)|(fed & a & Eg & Hss & Hfv & _ & HR)]];
+      rewrite Eg in *; try discriminate.
+    unfold union_shows, sk_tag, sk_tgt, sk_reg. cbn [sk_lgk sk_mode]. split; [reflexivity|]. split; [reflexivity|].
+    split; [split; [intros _; now left|reflexivity]|]. split; [|intros H; exfalso; now apply H].
+    intros _ j Hj. destruct HR as (_ & Hr & _). rewrite Hr. f_equal.
+    rewrite <- (Hreq j). now apply spec_regs_set.
+  - destruct (Hna eq_refl) as (-> & Hsc & HGA).
+    pose proof (sim_abs hip lg_max T8 seen _ _ Hlm HGA) as Habs.
+    apply (abs_ok_set hip lg_max T8 seen cs _ Hsc) in Habs. destruct Habs as (Hk & Ht & Htag & Hbody).
+    unfold union_shows. split; [assumption|]. split; [assumption|]. split.
+    + rewrite Htag. split; [now right|]. intros [H|H]; [discriminate|assumption].
+    + split.
+      * intros H. rewrite H in Hbody. assumption.
+      * intros H. split; [reflexivity|]. split; [assumption|]. destruct (sk_tag (un_gadget u)); [assumption|assumption|contradiction].
+Qed.
+
+(* ---------- to_sketch ---------- *)
+Lemma tosk_spec : forall lg_max harr lg cs u t, GInv lg_max harr lg cs u ->
+  exists r, union_to_sketch u t = Ok r /\ sk_tgt r = t /\
+    SrcOK lg (match sk_tag (un_gadget u) with TagArray => true | _ => false end) cs r /\
+    sk_tag r = sk_tag (un_gadget u) /\ sk_len r = sk_len (un_gadget u) /\
+    sk_est_inputs r = sk_est_inputs (un_gadget u).
+Proof.
+  intros lg_max harr lg cs u t (Hm & Hlm & Hl4 & Hle & Hcv & seen & Hsv & Hreq & HG & Hsp & Hne & Hna & Hha).
+  assert (Hlg : 4 <= lg <= 21) by lia.
+  unfold union_to_sketch.
+  destruct (gsim_cases TT lg seen _ HG) as [(l & ds & Eg & HL & Hlen & Hss)|[(st & Eg & H8 & H5 & H3 & HRs & Hl8 & Hld)|(fed & a & Eg & Hss & Hfv & _ & HR)]];
+    rewrite Eg in *; unfold sketch_tgt, sk_tag, sk_tgt, sk_len, sk_est_inputs in *; cbn [sk_mode sk_lgk] in *.
+  - specialize (Hsp ltac:(discriminate)).
+    exists (mkSketch lg (MList l t)). split; [destruct t; reflexivity|]. cbn [sk_mode sk_lgk]. split; [reflexivity|].
+    split; [|repeat split; reflexivity]. unfold SrcOK. cbn [sk_mode sk_lgk]. split; [reflexivity|]. split; [assumption|].
+    split; [assumption|]. split; [reflexivity|]. exists ds. split; [assumption|]. split; [assumption|].
+    intros c. rewrite (Hss c). apply Hsp.
+  - specialize (Hsp ltac:(discriminate)).
+    exists (mkSketch lg (MSet st t)). split; [destruct t; reflexivity|]. cbn [sk_mode sk_lgk]. split; [reflexivity|].
+    split; [|repeat split; reflexivity]. unfold SrcOK. cbn [sk_mode sk_lgk]. split; [reflexivity|]. split; [assumption|].
+    split; [assumption|]. split; [reflexivity|]. split; [assumption|]. split; [assumption|]. split; [assumption|].
+    split; [|split; assumption]. destruct HRs as (A & B & C & D). split; [assumption|]. split; [assumption|]. split; [assumption|].
+    intros c. rewrite (D c). apply Hsp.
+  - assert (Hrq : req lg fed cs) by (eapply req_trans; [apply req_same_set; exact Hss|exact Hreq]).
+    pose proof (a8_values_regs lg fed a HR) as Hvals. pose proof HR as (Hk8 & Hr8 & Hz8 & _).
+    set (vals := map (spec_regs lg fed) (Nseq 0 (N.to_nat (2 ^ lg)))) in *.
+    assert (Hcv63 : Forall (fun v => v <= 63) vals) by (now apply regs_vals_le63).
+    assert (Hcan : Forall valid (canon 0 vals)) by (now apply canon_valid).
+    assert (Hcrq : req lg (rev (canon 0 vals)) cs) by (eapply req_trans; [apply canon_req; lia|exact Hrq]).
+    destruct t.
+    + (* Hll4 *)
+      unfold convert_array8_to_type. rewrite Hvals, a4_fill_fold.
+      destruct (rep4_fold hip hip_update lg (canon 0 vals) [] _ _ Hlg Hcan (Forall_nil _) (rep4_new hip lg (hip_new lg)))
+        as (a4 & Hall & HR4).
+      rewrite Hall. cbn [obind]. rewrite app_nil_r in HR4. eexists. split; [reflexivity|]. cbn [sk_mode sk_lgk].
+      split; [reflexivity|]. pose proof (rep4_unhit hip lg _ a4 _ HR4) as Hun. destruct HR4 as ((Hk4 & HC4 & Hn4) & Hpos & _).
+      split; [|split; [reflexivity|split; [reflexivity|]]].
+      * unfold SrcOK. cbn [sk_mode sk_lgk]. split; [reflexivity|]. split; [assumption|]. split; [assumption|].
+        split; [reflexivity|]. split; [|assumption].
+        apply (inv4_ext hip lg (spec_regs lg (rev (canon 0 vals)))); [intros j _; apply Hcrq|].
+        split; [assumption|]. split; assumption.
+      * cbn [a4_est a4_cur_min a4_num]. rewrite Hun, Hz8. do 2 f_equal. apply req_zeros.
+        eapply req_trans; [apply canon_req; lia|apply req_refl].
+    + (* Hll6 *)
+      unfold convert_array8_to_type. rewrite Hvals, (a6_fill_fold vals _ 0 Hcv63).
+      pose proof (rep6_fold hip hip_update lg (canon 0 vals) [] _ _ Hcan (Forall_nil _) (rep6_new hip lg (hip_new lg))) as HR6.
+      rewrite app_nil_r in HR6. destruct HR6 as (Hk6 & W6 & Hr6 & Hz6 & _).
+      eexists. split; [reflexivity|]. cbn [sk_mode sk_lgk]. split; [reflexivity|].
+      split; [|split; [reflexivity|split; [reflexivity|]]].
+      * unfold SrcOK. cbn [sk_mode sk_lgk]. split; [reflexivity|]. split; [assumption|]. split; [assumption|].
+        split; [reflexivity|]. unfold a6_get in *. cbn [a6_lgk a6_bytes a6_nz]. split; [assumption|]. split.
+        -- intros j. rewrite Hr6. apply Hcrq.
+        -- rewrite Hz6. now apply req_zeros.
+      * cbn [a6_est a6_nz]. rewrite Hz6, Hz8. do 2 f_equal. apply req_zeros. apply canon_req. lia.
+    + (* Hll8: the gadget itself *)
+      exists (mkSketch lg (MArr8 a)). split; [reflexivity|]. cbn [sk_mode sk_lgk]. split; [reflexivity|].
+      split; [|repeat split; reflexivity]. unfold SrcOK. cbn [sk_mode sk_lgk]. split; [reflexivity|]. split; [assumption|].
+      split; [assumption|]. split; [reflexivity|]. split; [assumption|]. split.
+      * intros j. rewrite Hr8. apply Hrq.
+      * rewrite Hz8. now apply req_zeros.
 Qed.
